@@ -46,6 +46,17 @@ def t_md(params, T):
     return T
 
 
+def knots_of(sy, params):
+    """levels at which the specific yield or the transmissivity has a kink"""
+    out = []
+    zk = getattr(sy, "zeta_knots_mm", None)
+    if zk is not None:
+        out += [float(v) for v in zk]
+    out += [float(v) for v in params["specific_yield"].get("zeta_knots_mm", [])]
+    out += [float(v) for v in params["transmissivity"].get("zeta_knots_mm", [])]
+    return out
+
+
 def check_curve(ctx, params, grid, mean, kappa, et, inp):
     import scipy.integrate as si
     import spowtd.simulate_recession as srm
@@ -90,7 +101,11 @@ def check_curve(ctx, params, grid, mean, kappa, et, inp):
         return float(sy(z)) / (-et - kappa * T_ref(z))
     for _ in range((2 if n < 10 else 5) if n >= 2 else 0):
         i, j = sorted(ctx.rng.sample(range(n), 2))
-        direct = si.quad(f, grid[i], grid[j], limit=200)[0]
+        # the reference integral is broken at every knot of either function: across the kinks of a spline QUADPACK's
+        # error estimate is not to be trusted (a first version without break points was off by 5e-6 on a PEATCLSM
+        # specific yield of 201 knots, and raised an alarm on the unchanged tree in a thorough run)
+        kn = sorted({float(k) for k in knots_of(sy, params) if grid[i] < float(k) < grid[j]})
+        direct = si.quad(f, grid[i], grid[j], limit=max(200, 4 * len(kn) + 50), points=kn or None)[0]
         if abs((t[j] - t[i]) - direct) > 1e-6 * max(1e-9, abs(direct)) + 1e-12:
             wit = {"why": "elapsed-time difference is not the integral of Sy / (-ET - curvature * T)",
                    "levels": [grid[i], grid[j]], "difference": t[j] - t[i], "integral": direct}
